@@ -115,6 +115,48 @@ impl HeaderMap {
     pub fn len(&self) -> (r: usize) ensures r <= 32768 { unimplemented!() }
 }
 
+// ---- iteration (A-http-28) ----
+// hmap_entries(m): the order in which HeaderMap::iter presents the (name, value) pairs of m.  Its only assumed property:
+// per name, the values come in their stored order and none is missing or invented (an interleaving of the per-name lists).
+pub uninterp spec fn hmap_entries(m: HMap) -> Seq<(Seq<char>, Seq<u8>)>;
+pub open spec fn values_of(s: Seq<(Seq<char>, Seq<u8>)>, k: Seq<char>) -> Seq<Seq<u8>> {
+    s.filter(|p: (Seq<char>, Seq<u8>)| p.0 == k).map_values(|p: (Seq<char>, Seq<u8>)| p.1)
+}
+pub broadcast axiom fn axiom_hmap_entries(m: HMap, k: Seq<char>)
+    ensures #[trigger] values_of(hmap_entries(m), k) == (if m.contains_key(k) { m[k] } else { Seq::<Seq<u8>>::empty() });
+// http::header::Iter over (name, value) pairs: a ghost sequence of the pairs still to come
+pub struct HIter<'a> { pub rest: Ghost<Seq<(Seq<char>, Seq<u8>)>>, pub m: &'a HeaderMap }
+impl<'a> HIter<'a> {
+    #[verifier::external_body]
+    pub fn next(&mut self) -> (r: Option<(&'a HeaderName, &'a HeaderValue)>)
+        ensures
+            old(self).rest@.len() == 0 ==> r is None && final(self).rest@ == old(self).rest@,
+            old(self).rest@.len() > 0 ==> (r matches Some(p) && p.0@ == old(self).rest@[0].0 && p.1@ == old(self).rest@[0].1 && final(self).rest@ == old(self).rest@.skip(1)),
+    { unimplemented!() }
+    // A-core-20: Iterator::fold calls f once per remaining item, in order, threading the accumulator (fold_rel below)
+    #[verifier::external_body]
+    pub fn fold<B, F: Fn(B, (&'a HeaderName, &'a HeaderValue)) -> B>(self, init: B, f: F) -> (r: B)
+        requires forall|b: B, p: (&'a HeaderName, &'a HeaderValue)| f.requires((b, p)),
+        ensures fold_rel(f, self.rest@, init, r),
+    { unimplemented!() }
+}
+// r is a result of folding f over items presenting the pairs s, starting from init (relational: f is known by its contract)
+pub open spec fn fold_rel<'a, B, F: Fn(B, (&'a HeaderName, &'a HeaderValue)) -> B>(f: F, s: Seq<(Seq<char>, Seq<u8>)>, init: B, r: B) -> bool
+    decreases s.len()
+{
+    if s.len() == 0 { r == init } else {
+        exists|k: &'a HeaderName, v: &'a HeaderValue, mid: B|
+            k@ == s.last().0 && v@ == s.last().1 && fold_rel(f, s.drop_last(), init, mid) && #[trigger] f.ensures((mid, (k, v)), r)
+    }
+}
+impl HeaderMap {
+    #[verifier::external_body]
+    pub fn iter(&self) -> (r: HIter<'_>) ensures r.rest@ == hmap_entries(self@) { unimplemented!() }
+}
+pub broadcast proof fn lemma_push_drop_last<A>(s: Seq<A>, x: A)
+    ensures #[trigger] s.push(x).drop_last() == s
+{ assert(s.push(x).drop_last() =~= s); }
+
 // http::header constants used by tonic
 pub mod header {
     use super::*;
